@@ -34,6 +34,7 @@ type Prop struct {
 	AnomalyKnownKey func(key string) string
 	Assumptions     []string
 	CaseCPUBudget   float64
+	HeapBudget      uint64
 	// Custom, when set, replaces the sharded worker scheme: it runs in the
 	// coordinator process itself and must not call pql code in-process.
 	Custom func(c *Custom)
@@ -117,6 +118,7 @@ type Merged struct {
 	harnessErrors  []string
 	anomalyViol    []Violation
 	inconclAnomaly int
+	ownedSeen      map[uint64]struct{}
 }
 
 func (m *Merged) add(r *Result) {
@@ -151,6 +153,16 @@ func (m *Merged) add(r *Result) {
 		}
 	}
 	m.Violations = append(m.Violations, r.Violations...)
+	for _, h := range r.OwnedHashes {
+		if m.ownedSeen == nil {
+			m.ownedSeen = map[uint64]struct{}{}
+		}
+		if _, dup := m.ownedSeen[h]; dup {
+			m.Nontrivial--
+			m.Counters["cross_shard_duplicates_removed"]++
+		}
+		m.ownedSeen[h] = struct{}{}
+	}
 	if r.HarnessError != "" {
 		m.harnessErrors = append(m.harnessErrors, r.HarnessError)
 	}
@@ -271,6 +283,8 @@ func runShard(p *Prop, tier string, seed int64, sh, nsh int, dir, self string, m
 		kind := "crash"
 		if ee, ok := err.(*exec.ExitError); ok && ee.ExitCode() == 3 {
 			kind = "cpu-timeout"
+		} else if ok && ee.ExitCode() == 4 {
+			kind = "heap-limit"
 		}
 		if killed {
 			kind = "wall-clock"
@@ -279,12 +293,18 @@ func runShard(p *Prop, tier string, seed int64, sh, nsh int, dir, self string, m
 		if len(tail) > 1500 {
 			tail = tail[:700] + "\n…\n" + tail[len(tail)-700:]
 		}
+		if p.AnomalyIsViolation && kind == "cpu-timeout" && !confirmSolo(p, key, dir, self, sh) {
+			kind = "slow-unconfirmed"
+		}
 		mu.Lock()
 		m.Restarts++
 		if !haveRes {
 			m.LostSegments++
 		}
 		switch {
+		case kind == "slow-unconfirmed":
+			m.Inconclusive["slow_unconfirmed"]++
+			m.Foreign = append(m.Foreign, fmt.Sprintf("%s idx=%d key=%q", kind, idx, clip(key, 200)))
 		case kind == "wall-clock":
 			m.Inconclusive["wall_clock_guard"]++
 			m.Foreign = append(m.Foreign, fmt.Sprintf("%s idx=%d key=%q", kind, idx, clip(key, 200)))
@@ -293,7 +313,7 @@ func runShard(p *Prop, tier string, seed int64, sh, nsh int, dir, self string, m
 			if p.AnomalyKnownKey != nil {
 				kk = p.AnomalyKnownKey(key)
 			}
-			cj, _ := json.Marshal(map[string]any{"src": key, "anomaly": kind})
+			cj, _ := json.Marshal(key)
 			m.anomalyViol = append(m.anomalyViol, Violation{Key: key, KnownKey: kk, Case: cj,
 				Msg: fmt.Sprintf("worker %s while executing this case (%s)", kind, clip(tail, 600))})
 		default:
@@ -311,6 +331,29 @@ func runShard(p *Prop, tier string, seed int64, sh, nsh int, dir, self string, m
 			return
 		}
 		resume = idx
+	}
+}
+
+// confirmSolo re-runs one case alone in a fresh worker (with its watchdog)
+// and reports whether it again fails to finish within the CPU budget.
+func confirmSolo(p *Prop, key, dir, self string, sh int) bool {
+	rf := filepath.Join(dir, fmt.Sprintf("confirm.%d.json", sh))
+	cj, _ := json.Marshal(key)
+	b, _ := json.Marshal(map[string]any{"key": key, "case": json.RawMessage(cj)})
+	os.WriteFile(rf, b, 0o644)
+	cmd := exec.Command(self, "worker", p.ID, "--replay", rf, "--out", dir, "--shard", strconv.Itoa(1000+sh))
+	done := make(chan error, 1)
+	if err := cmd.Start(); err != nil {
+		return true
+	}
+	go func() { done <- cmd.Wait() }()
+	select {
+	case err := <-done:
+		return err != nil
+	case <-time.After(30 * time.Minute):
+		cmd.Process.Kill()
+		<-done
+		return false
 	}
 }
 
